@@ -194,6 +194,67 @@ def nontrivial(cfg, acts):
     return ok
 
 
+def canon(x):
+    """a state object as a comparable value (arrays by contents, dictionaries by sorted items)"""
+    if isinstance(x, dict):
+        return tuple(sorted((repr(sorted(k)) if isinstance(k, (set, frozenset)) else repr(k), canon(v)) for k, v in x.items()))
+    if isinstance(x, (list, tuple)):
+        return tuple(canon(v) for v in x)
+    if isinstance(x, numpy.ndarray):
+        return ('nd', str(x.dtype), x.shape, x.tobytes())
+    if isinstance(x, float) and x != x:
+        return 'nan'
+    return repr(x) if not isinstance(x, (int, float, str, bool, type(None), bytes)) else x
+
+
+def first_diff(a, b, path=''):
+    if a == b:
+        return None
+    if isinstance(a, tuple) and isinstance(b, tuple) and len(a) == len(b):
+        for i, (x, y) in enumerate(zip(a, b)):
+            d = first_diff(x, y, path + '/%s' % (x[0] if isinstance(x, tuple) and len(x) == 2 and isinstance(x[0], str) else i))
+            if d:
+                return d
+    return '%s: now %s, when read %s' % (path, str(a)[:120], str(b)[:120])
+
+
+def whole_state_cases(rng, out, n):
+    """the WHOLE state object of a sampler (positions, statistics, blobs, proposed position, proposals, ladder), transdimensional
+    samplers included, read at every kind of moment - right after the start, after a clear, in mid-run -: it must not change while
+    the sampler runs on, and loading it afterwards must work and give the sampler it described"""
+    import pickle
+    from .. import configs as C
+    for i in range(n):
+        td, moment = [(True, 'after_clear'), (False, 'after_clear'), (True, 'mid_run'), (True, 'after_clear'), (False, 'mid_run'),
+                      (True, 'after_first_step'), (True, 'after_clear'), (False, 'after_first_step')][i % 8]
+        cfg = C.gen(rng, kind='td' if td else None, allow_annealer=True)
+        s = C.build(cfg)
+        s.start_position = C.start_position(cfg)
+        s.run(rng.choice([3, 6]) if moment != 'after_first_step' else 1)
+        if moment == 'after_clear':
+            s.clear()
+        st = s.state
+        ref = canon(pickle.loads(pickle.dumps(st)))
+        s.run(rng.choice([4, 9]))
+        out.evaluations += 1
+        out.count('whole_state_' + moment)
+        out.count('whole_state_' + cfg['kind'])
+        desc = dict(kind='whole_state', config=cfg, moment=moment)
+        if canon(st) != ref:
+            a, b = canon(st), ref
+            out.violations.append(dict(what='the state read %s changed while the sampler it was read from ran on (%s sampler): %s'
+                                            % (moment.replace('_', ' '), cfg['kind'], first_diff(a, b)), replay=desc))
+            return
+        try:
+            s2 = C.build(cfg, seed=cfg['seed'] + 5)
+            s2.set_state(st)
+        except Exception as e:      # noqa
+            out.violations.append(dict(what='the state read %s could not be loaded after the sampler it was read from had run on: %r'
+                                            % (moment.replace('_', ' '), e), replay=desc))
+            return
+        out.nontrivial.add(repr((cfg['kind'], moment, i)))
+
+
 def run(seed, tier):
     thorough = tier == 'thorough'
     rng = random.Random(seed * 7919 + 16)
@@ -233,6 +294,8 @@ def run(seed, tier):
             out.nontrivial.add(repr((cfg['family'], cfg['pt'], acts)))
         if len(out.samples) < 2:
             out.samples.append(dict(config=cfg, actions=acts))
+    if len(out.violations) < 3:
+        whole_state_cases(rng, out, 48 if thorough else 16)
     failing = core.run_coq_cases('C16', A.HEADER, terms, eval_fn='failing16', per_file=4)
     for f in failing[:10]:
         out.corr_failures.append(dict(note='copying semantics (Alias.v) and the real objects disagree at action %d' % (f[1] - 1),
